@@ -440,7 +440,7 @@ def _extract_struct(repo, file, name, keep=None):
     raise LostAnchor("struct %s: unsupported form" % name)
 
 
-def extract_enum(repo, file, name):
+def extract_enum(repo, file, name, derive=None):
     src = open(os.path.join(repo, file)).read()
     m = re.search(r"^[ \t]*(?:pub(?:\([^)]*\))?\s+)?enum\s+%s\b[^{;]*\{" % re.escape(name), src, re.M)
     if not m:
@@ -450,6 +450,15 @@ def extract_enum(repo, file, name):
     text = re.sub(r"^\s*///.*\n", "", text, flags=re.M)
     text = re.sub(r"^\s*#\[[^\]]*\]\s*\n", "", text, flags=re.M)
     text = re.sub(r"^\s*pub(\s*\([^)]*\))?\s+enum", "enum", text)
+    if derive:
+        # only derives the source itself carries may be re-stated (Structural = Verus' name for derived field-wise equality)
+        pre = src[max(0, m.start() - 200):m.start()]
+        dm = re.findall(r"#\[derive\(([^)]*)\)\]", pre)
+        have = set(x.strip() for x in (dm[-1].split(",") if dm else []))
+        for d in derive:
+            if d != "Structural" and d not in have:
+                raise LostAnchor("enum %s: derive %s not present in the source" % (name, d))
+        text = "#[derive(%s)]\n" % ", ".join(derive) + text
     return text.strip() + "\n"
 
 
@@ -652,7 +661,7 @@ def expand(template_text, repo):
             notes += n2
             emit(text)
         elif kind == "enum":
-            emit(extract_enum(repo, kv["file"], kv["name"]))
+            emit(extract_enum(repo, kv["file"], kv["name"], kv["derive"].split(",") if kv.get("derive") else None))
         elif kind == "fragment":
             hdr_kv = dict(kv)
             fm = re.search(r'from="((?:[^"\\]|\\.)*)"', header)
